@@ -106,10 +106,17 @@ else:
         return int.from_bytes(bytes(octets), 'big', signed=signed)
 
     def to_bytes(value, signed=False, length=0):
-        length = max(value.bit_length(), length)
+        if not signed:
+            bits = value.bit_length()
 
-        if signed and length % 8 == 0:
-            length += 1
+        elif value < 0:
+            # two's complement: n bits hold -2**(n-1) as well
+            bits = (~value).bit_length() + 1
+
+        else:
+            bits = value.bit_length() + 1
+
+        length = max(bits, length)
 
         return value.to_bytes(length // 8 + (length % 8 and 1 or 0), 'big', signed=signed)
 
